@@ -68,6 +68,13 @@ func condsBefore(scope *ast.BlockStmt, target ast.Node) []ast.Expr {
 // path leaves the scope, so it may mention variables the scope defines.
 func (c *Ctx) RequireReached(rule, key string, fn *FuncInfo, scope *ast.BlockStmt, target ast.Node, req string, subst map[string]string) *Obligation {
 	src := substReq(req, subst)
+	return c.RequireReachedF(rule, key, fn, scope, target, src, func(e *FactEngine) (*Formula, error) {
+		return e.ParseReq(src, target.Pos())
+	})
+}
+
+// RequireReachedF is RequireReached with the condition built from the function's own syntax.
+func (c *Ctx) RequireReachedF(rule, key string, fn *FuncInfo, scope *ast.BlockStmt, target ast.Node, src string, build func(e *FactEngine) (*Formula, error)) *Obligation {
 	desc := src + " ⇒ reached"
 	// the simple statement that executes the target
 	var cut ast.Stmt
@@ -82,7 +89,7 @@ func (c *Ctx) RequireReached(rule, key string, fn *FuncInfo, scope *ast.BlockStm
 		return c.Undec(rule, key, c.P.Pos(target), fn.Key(), desc, "the target is not executed by a simple statement")
 	}
 	e := NewFactEngine(c.P, fn)
-	f, err := e.ParseReq(src, target.Pos())
+	f, err := build(e)
 	if err != nil {
 		return c.Undec(rule, key, c.P.Pos(target), fn.Key(), desc, err.Error())
 	}
